@@ -127,6 +127,9 @@ FAMILIES = {
     "rw-norm": ["m_rw_materialize", "m_rw_materialize_b", "m_rw_layernorm", "m_rw_layernorm_b", "m_rw_rmsnorm", "m_rw_rmsnorm_b"],
     "optimize": ["m_opt_fold", "m_opt_fold_b", "m_opt_if", "m_pass_fold", "m_pass_nofold", "m_pass_if", "x_opt_bad", "x_pass_fold_then_raise",
                  "m_pass_nofold_unnamed"],
+    # models whose inlined If branches own same-named initializers (one is renamed when moved to the main graph): any suffix bookkeeping that
+    # outlives one call shows as a different name after another such model
+    "optimize-branch-initializers": ["m_opt_two_if_w", "m_opt_two_if_w_b", "m_pass_two_if_w", "m_opt_if", "m_pass_if", "x_pass_fold_then_raise"],
     "rw-shared-set": ["m_set_materialize", "m_set_materialize_b", "x_set_raises_midway", "m_rw_materialize", "m_rw_materialize_b"],
     "convert-pattern": ["m_convert_up", "m_convert_up_b", "m_convert_up_c", "x_convert_bad", "x_bad_pattern", "m_rw_operator_pattern"],
     "convert-functions-subgraphs": ["m_convert_fn_sub", "m_convert_fn_sub_b", "m_convert_fn_sub_ir", "m_convert_up", "x_convert_bad", "m_opt_func_a"],
@@ -174,6 +177,10 @@ FIXED_SEQUENCES = [
     ["m_set_materialize", "x_set_raises_midway", "m_set_materialize", "m_set_materialize_b", "x_set_raises_midway", "m_set_materialize_b", "m_rw_materialize", "m_rw_materialize_b"],
     ["x_set_raises_midway", "m_set_materialize_b", "m_rw_materialize", "x_rw_reshape_raises", "m_rw_reshape", "x_bad_pattern", "m_rw_operator_pattern", "m_set_materialize"],
     ["x_convert_bad", "m_convert_fn_sub", "x_bad_script_stmt", "s_if3", "x_bad_script_unbound", "s_loop3", "x_opt_bad", "m_opt_fold"],
+    # two models with constant-condition Ifs whose inlined branches own same-named initializers, optimized in both orders in one process (every
+    # position is compared with the operation alone in a fresh process), through optimize() and the shared pass, once after a failing fold
+    ["m_opt_two_if_w", "m_opt_two_if_w_b", "m_opt_two_if_w", "m_pass_two_if_w", "m_opt_two_if_w_b", "m_opt_if", "m_opt_two_if_w"],
+    ["m_opt_two_if_w_b", "m_opt_two_if_w", "x_pass_fold_then_raise", "m_pass_two_if_w", "m_opt_two_if_w", "m_pass_two_if_w", "m_opt_two_if_w_b"],
     # eager evaluation (default evaluator, registered python ops) after refused scripts
     ["x_bad_script_stmt", "s_later_float", "x_bad_script_unbound", "s_alias_slice", "s_alias_in_tuple", "s_later_array_inplace"],
     # constants that share memory with a base written after decoration, around other decorations
